@@ -115,82 +115,9 @@ func (ex *Exec) call(f *Frame, st *State, x *ssa.Call, b *ssa.BasicBlock, i int,
 	if k := strings.LastIndex(short, "."); k >= 0 {
 		short = short[k+1:]
 	}
-	if ex.con != nil && len(ex.con.CallAsserts) > 0 {
-		// release points are anchored on the ordinal of the call among the call
-		// sites of the same callee across the unit's inline tree, so they also
-		// fire inside inlined helpers; the callee is named by its last component
-		// or by a qualified suffix
-		siteKey := f.chain + fmt.Sprintf("%p", x)
-		type casT struct {
-			Clause
-			pat string
-			ord string
-		}
-		var cas []casT
-		for _, key := range sortedKeys(ex.con.CallAsserts) {
-			pat, ordS, ok := strings.Cut(key, "#")
-			if !ok || !calleeMatches(pat, name) {
-				continue
-			}
-			if ordS != "*" {
-				n := ex.unitOrdinal(pat, siteKey)
-				if n == 0 && f.depth == 0 {
-					n = ord // dynamic callee not seen by the static numbering
-				}
-				if fmt.Sprint(n) != ordS {
-					continue
-				}
-			}
-			for _, c := range ex.con.CallAsserts[key] {
-				cas = append(cas, casT{c, pat, ordS})
-			}
-		}
-		for k, c := range cas {
-			ec := ex.ectx(f, st)
-			if f.depth > 0 && ex.root != nil {
-				// names of the unit's own frame stay visible inside an extracted helper
-				for k2, v2 := range ex.ectx(ex.root, st).vars {
-					if _, own := ec.vars[k2]; !own {
-						ec.vars[k2] = v2
-					}
-				}
-			}
-			for pn, pb := range ex.paramBindings(callee, sig, c0.IsInvoke(), args) {
-				// the caller's names win (a recursive call has the same parameter names)
-				if _, own := ec.vars[pn]; !own || strings.HasPrefix(pn, "arg") {
-					ec.vars[pn] = pb
-				}
-			}
-			lbl := c.Label
-			if lbl == "" {
-				lbl = fmt.Sprint(k + 1)
-			}
-			ordName := c.ord
-			if ordName == "*" {
-				if n := ex.unitOrdinal(c.pat, siteKey); n > 0 {
-					ordName = fmt.Sprint(n)
-				} else {
-					ordName = fmt.Sprint(ord)
-				}
-			}
-			t, err := ec.formula(c.Src)
-			if err != nil && c.Optional {
-				// as for optional ensures: "A ==> B" with B's values not (yet) existing at
-				// this call requires A to be false here
-				if parts := splitOp(c.Src, "==>"); len(parts) == 2 && strings.Contains(err.Error(), "unknown identifier") {
-					if a, err2 := ec.formula(parts[0]); err2 == nil {
-						ex.oblige(f, st, "assert", fmt.Sprintf("%s#assert:%s#%s#%s#nolocal", ex.name, c.pat, ordName, lbl), mkNot(a), x.Pos(),
-							c.Src+"   [the consequent's values do not exist at this call: its antecedent must be false here]")
-					}
-				}
-				continue
-			}
-			if err != nil {
-				ex.aborted = fmt.Sprintf("contract error (%s): %v", c.Line, err)
-				return false
-			}
-			ex.oblige(f, st, "assert", fmt.Sprintf("%s#assert:%s#%s#%s", ex.name, c.pat, ordName, lbl), t, x.Pos(), c.Src)
-		}
+	st.sites = append(st.sites, name)
+	if ex.callAsserts(f, st, x, name, ord, ex.paramBindings(callee, sig, c0.IsInvoke(), args), "") {
+		return false
 	}
 	wantInline := false
 	inlSweep := map[string]bool{}
@@ -278,6 +205,102 @@ func (ex *Exec) call(f *Frame, st *State, x *ssa.Call, b *ssa.BasicBlock, i int,
 		vals = append(vals, w.freshReg(st, sig.Results().At(k).Type(), fmt.Sprintf("%s_r%d", short, k), OrigCall))
 	}
 	setRes(st, vals)
+	return false
+}
+
+// callAsserts checks the unit's callassert clauses for the call site x of the
+// callee `name` (also used for the pseudo-callee "chansend": channel sends).
+// guard, when not empty, is the condition under which the site is taken (a send
+// case of a select). It reports whether the unit was aborted by a contract error.
+func (ex *Exec) callAsserts(f *Frame, st *State, x ssa.Instruction, name string, ord int, pbs map[string]Binding, guard string) bool {
+	return ex.callAssertsAt(f, st, x, fmt.Sprintf("%p", x), name, ord, pbs, guard)
+}
+
+func (ex *Exec) callAssertsAt(f *Frame, st *State, x ssa.Instruction, site string, name string, ord int, pbs map[string]Binding, guard string) bool {
+	if ex.con == nil || len(ex.con.CallAsserts) == 0 {
+		return false
+	}
+	// release points are anchored on the ordinal of the call among the call
+	// sites of the same callee across the unit's inline tree, so they also
+	// fire inside inlined helpers; the callee is named by its last component
+	// or by a qualified suffix
+	siteKey := f.chain + site
+	type casT struct {
+		Clause
+		pat string
+		ord string
+	}
+	var cas []casT
+	for _, key := range sortedKeys(ex.con.CallAsserts) {
+		pat, ordS, ok := strings.Cut(key, "#")
+		if !ok || !calleeMatches(pat, name) {
+			continue
+		}
+		if ordS != "*" {
+			n := ex.unitOrdinal(pat, siteKey)
+			if n == 0 && f.depth == 0 {
+				n = ord // dynamic callee not seen by the static numbering
+			}
+			if fmt.Sprint(n) != ordS {
+				continue
+			}
+		}
+		for _, c := range ex.con.CallAsserts[key] {
+			cas = append(cas, casT{c, pat, ordS})
+		}
+	}
+	imp := func(t string) string {
+		if guard == "" {
+			return t
+		}
+		return mkImp(guard, t)
+	}
+	for k, c := range cas {
+		ec := ex.ectx(f, st)
+		if f.depth > 0 && ex.root != nil {
+			// names of the unit's own frame stay visible inside an extracted helper
+			for k2, v2 := range ex.ectx(ex.root, st).vars {
+				if _, own := ec.vars[k2]; !own {
+					ec.vars[k2] = v2
+				}
+			}
+		}
+		for pn, pb := range pbs {
+			// the caller's names win (a recursive call has the same parameter names)
+			if _, own := ec.vars[pn]; !own || strings.HasPrefix(pn, "arg") {
+				ec.vars[pn] = pb
+			}
+		}
+		lbl := c.Label
+		if lbl == "" {
+			lbl = fmt.Sprint(k + 1)
+		}
+		ordName := c.ord
+		if ordName == "*" {
+			if n := ex.unitOrdinal(c.pat, siteKey); n > 0 {
+				ordName = fmt.Sprint(n)
+			} else {
+				ordName = fmt.Sprint(ord)
+			}
+		}
+		t, err := ec.formula(c.Src)
+		if err != nil && c.Optional {
+			// as for optional ensures: "A ==> B" with B's values not (yet) existing at
+			// this call requires A to be false here
+			if parts := splitOp(c.Src, "==>"); len(parts) == 2 && strings.Contains(err.Error(), "unknown identifier") {
+				if a, err2 := ec.formula(parts[0]); err2 == nil {
+					ex.oblige(f, st, "assert", fmt.Sprintf("%s#assert:%s#%s#%s#nolocal", ex.name, c.pat, ordName, lbl), imp(mkNot(a)), x.Pos(),
+						c.Src+"   [the consequent's values do not exist at this call: its antecedent must be false here]")
+				}
+			}
+			continue
+		}
+		if err != nil {
+			ex.aborted = fmt.Sprintf("contract error (%s): %v", c.Line, err)
+			return true
+		}
+		ex.oblige(f, st, "assert", fmt.Sprintf("%s#assert:%s#%s#%s", ex.name, c.pat, ordName, lbl), imp(t), x.Pos(), c.Src)
+	}
 	return false
 }
 
@@ -638,7 +661,15 @@ func (ex *Exec) builtin(f *Frame, st *State, x *ssa.Call, bi *ssa.Builtin) Val {
 	case "delete":
 		st.mapEpoch++
 		return VTuple{}
-	case "close", "print", "println":
+	case "close":
+		// closing a channel: a site of the pseudo-callee "chanclose" (arg0 the channel)
+		if len(x.Call.Args) == 1 {
+			pbs := map[string]Binding{"arg0": {V: ex.val(f, st, x.Call.Args[0]), T: x.Call.Args[0].Type()}}
+			st.sites = append(st.sites, "chanclose")
+			ex.callAsserts(f, st, x, "chanclose", 0, pbs, "")
+		}
+		return VTuple{}
+	case "print", "println":
 		return VTuple{}
 	}
 	w.note("builtin " + bi.Name())
@@ -648,7 +679,35 @@ func (ex *Exec) builtin(f *Frame, st *State, x *ssa.Call, bi *ssa.Builtin) Val {
 	return w.freshReg(st, x.Type(), bi.Name(), OrigCall)
 }
 
-// runDefers executes deferred calls (LIFO) by contract or havoc.
+func shortName(name string) string {
+	if k := strings.LastIndex(name, "."); k >= 0 {
+		return name[k+1:]
+	}
+	return name
+}
+
+// deferInlinable: an anonymous function of the module, loop-free, small, without
+// deferred calls of its own, not already being executed.
+func (ex *Exec) deferInlinable(f *Frame, callee *ssa.Function) bool {
+	if callee == nil || callee.Parent() == nil || len(callee.Blocks) == 0 || !ex.inModule(callee) || ex.onStack(callee) || f.depth >= 3 {
+		return false
+	}
+	if len(ex.prog.loopInfo(callee).headers) != 0 || instrCount(callee) > 100 {
+		return false
+	}
+	for _, b := range callee.Blocks {
+		for _, in := range b.Instrs {
+			switch in.(type) {
+			case *ssa.Defer, *ssa.Go:
+				return false
+			}
+		}
+	}
+	return true
+}
+
+// runDefers executes deferred calls (LIFO): by contract, by executing a small
+// closure of the module, or by havoc.
 func (ex *Exec) runDefers(f *Frame, st *State, b *ssa.BasicBlock, i int, prev *ssa.BasicBlock) bool {
 	w := ex.w
 	fs := st.fstate(f)
@@ -679,6 +738,50 @@ func (ex *Exec) runDefers(f *Frame, st *State, b *ssa.BasicBlock, i int, prev *s
 		if con := ex.prog.CS.ByName[name]; con != nil && !con.Inline && !con.sweepOnly() {
 			ex.applyContract(f, st, d.call, con, name, f.li.callOrd[d.call], callee, c.Signature(), args)
 			continue
+		}
+		if ex.prog.CS.ByName[name] == nil && ex.deferInlinable(f, callee) {
+			// a small deferred closure of the module (s.priv = nil, clearing a buffer,
+			// wrapping the named error) is executed, not havocked: what it establishes
+			// on the way out is part of the function's postcondition. The remaining
+			// deferred calls run after it, then the function continues after RunDefers.
+			ex.inlined[name]++
+			rest := ds[:k:k]
+			nf := ex.newFrame(callee, f, f.depth+1, f.prefix+"#defer:"+shortName(name))
+			nf.chain = f.chain + fmt.Sprintf("%p", d.call) + "/"
+			nf.sweep = map[string]bool{}
+			for _, cl := range []string{"bounds", "make", "div", "nooverflow"} {
+				if f.sweep[cl] {
+					nf.sweep[cl] = true
+				}
+			}
+			nf.limit = f.limit
+			for j, p := range callee.Params {
+				if j < len(args) {
+					nf.regs[p] = args[j]
+					nf.params[p.Name()] = Binding{V: args[j], T: p.Type()}
+				}
+			}
+			for j, fv := range callee.FreeVars {
+				if j < len(bindings) {
+					nf.regs[fv] = bindings[j]
+				} else {
+					nf.regs[fv] = w.freshReg(st, fv.Type(), fv.Name(), OrigKnown)
+				}
+			}
+			ex.stack = append(ex.stack, callee)
+			depth := len(ex.stack)
+			nf.ret = func(st2 *State, vals []Val) {
+				saved := ex.stack
+				ex.stack = ex.stack[:depth-1]
+				st2.fstate(f).defers = rest
+				if !ex.runDefers(f, st2, b, i, prev) {
+					ex.runFrom(f, st2, b, i+1, prev)
+				}
+				ex.stack = saved
+			}
+			ex.runFrom(nf, st, callee.Blocks[0], 0, nil)
+			ex.stack = ex.stack[:depth-1]
+			return true
 		}
 		ex.havocked[name]++
 		if ex.prog.CS.isPure(name) {
